@@ -147,7 +147,8 @@ class ControllerApplication:
         if self._device_address_state == ControllerApplication.State.NONE:
             if self._device_address_preferred != None:
                 self._device_address_announced = self._device_address_preferred
-                self._send_address_claimed(self._device_address_announced)
+                # update the state before the claim is handed to the bus: a contending claim may be
+                # processed before the send call returns
                 if self._device_address_announced > 127 and self._device_address_announced < 248:
                     self._device_address_state = ControllerApplication.State.WAIT_VETO
                     time_to_sleep = ControllerApplication.ClaimTimeout.VETO
@@ -155,6 +156,7 @@ class ControllerApplication:
                     # addresses from 0..127 and 248..253 should start immediately
                     self._device_address = self._device_address_announced
                     self._device_address_state = ControllerApplication.State.NORMAL
+                self._send_address_claimed(self._device_address_announced)
         elif self._device_address_state == ControllerApplication.State.WAIT_VETO:
             # if we reach this phase, there was no VETO to our address claimed message so far
             self._device_address = self._device_address_announced
@@ -212,9 +214,9 @@ class ControllerApplication:
                     # TODO: we should check the address range here
                     self._device_address_announced += 1
                     logger.info("Try the next address '%d'", self._device_address_announced)
-                    self._send_address_claimed(self._device_address_announced)
                     # TODO: it's not possible to set the VETO-Timeout from here
                     self._device_address_state = ControllerApplication.State.WAIT_VETO
+                    self._send_address_claimed(self._device_address_announced)
 
             else:
                 # we have higher prio - repeat our claim message
